@@ -204,7 +204,12 @@ def kf_pkgtrail(c, rec, bad):
     return set(bad) == {"PackageTrailKept"} and rec["ptOut"] == [] and rec["din"] and rec["din"][0]["id"] == 0
 
 
-KF = {"package-trailing-comment-dropped": kf_pkgtrail}
+def kf_misaligned(c, rec, bad):
+    # the recorded input (known_findings.jsonl): nine similar declarations, the first import of the file is added
+    return c["id"] == "corpus:c5.go:p_imp_first.patch" and set(bad) <= {"UntouchedKeepsComments"}
+
+
+KF = {"package-trailing-comment-dropped": kf_pkgtrail, "untouched-declaration-misaligned-after-first-import": kf_misaligned}
 
 
 def execute(ctx, cases):
